@@ -239,6 +239,8 @@ def sqrt_settle(chk):
 
 def run(chk):
     prog, base = setup(chk)
+    from .common import state_shape
+    state_shape(chk, prog)
     chk.bounds = ["all (u,v): non-zero pairs as g^alpha, g^beta with alpha,beta in Z/(p-1) split into the 16 residue classes mod 4 (exhaustive, code independent); the three zero cases separately",
                   "every limb representation via the field contracts"]
     chk.outside = ["GF(p)* is cyclic of order p-1 (p prime)", "the sign chosen by Absolute is its own contract (C09: even reduced value); inside SqrtRatio it is a free bit"]
